@@ -3,7 +3,7 @@
 # (never to /repo itself), confirmed (suite green, demo fails) and the quick check of its property must report a VIOLATION.
 # Prints one line per change and a summary; exit 1 if a change is no longer caught.
 R=${SEED_SCRATCH:-/tmp/seedrepo.$$}
-rm -rf "$R"; git clone -q /repo "$R" || exit 2
+rm -rf "$R"; git clone -q ${SEED_SRC:-/repo} "$R" || exit 2
 trap 'rm -rf "$R"' EXIT
 dirs="$@"; [ -z "$dirs" ] && dirs=$(ls -d /verif/seeded/C*)
 miss=0; n=0; stale=0
